@@ -282,6 +282,12 @@ class _EulerBernoulli(_GroupElem):
             P[elems] = beam._Calc_P()
 
         P_e_pg = FeArray.zeros(Ne, 1, dof_n * nPe, dof_n * nPe)
+        if dof_n == 1:
+            # 1D: the only dof is the displacement along the global x-axis
+            # u_local = ix * u_global
+            diag = np.arange(nPe)
+            P_e_pg[:, 0, diag, diag] = P[:, :1, 0]
+            return P_e_pg
         N = P.shape[-1]
         lines = np.repeat(range(N), N)
         columns = np.array(list(range(N)) * N)
@@ -501,10 +507,9 @@ class _EulerBernoulli(_GroupElem):
 
         B_e_pg = FeArray.asfearray(B_e_pg)
 
-        if dim > 1:
-            Pglob_e_pg = self._Compute_P_e_pg(beamStructure=beamStructure)
+        Pglob_e_pg = self._Compute_P_e_pg(beamStructure=beamStructure)
 
-            B_e_pg = B_e_pg @ Pglob_e_pg
+        B_e_pg = B_e_pg @ Pglob_e_pg
 
         return B_e_pg
 
@@ -709,9 +714,8 @@ class _Timoshenko(_EulerBernoulli):
 
         B_e_pg = FeArray.asfearray(B_e_pg)
 
-        if dim > 1:
-            Pglob_e_pg = self._Compute_P_e_pg(beamStructure=beamStructure)
-            B_e_pg = B_e_pg @ Pglob_e_pg
+        Pglob_e_pg = self._Compute_P_e_pg(beamStructure=beamStructure)
+        B_e_pg = B_e_pg @ Pglob_e_pg
 
         return B_e_pg
 
